@@ -41,6 +41,12 @@ def known_class(arch, typ, cfg, e):
     if arch == 'msgpack' and cfg.get('src') == 'noseek' and e.get('stage') in ('load', 'load2') and (
             e.get('code') == 'Input/output error' or 'Unexpected end of input archive' in e.get('what', '')):
         return 'msgpack/noseek-stream/repositioning-required'
+    if arch == 'json' and e.get('out') == 'differs' and isinstance(e.get('desc0'), (dict, list)):
+        diffs = D.leaf_diffs(e['desc0'], e['desc1'])
+        if diffs and all((D.ulp_distance(x, y, 'f64') or 99) <= 3 for _, x, y in diffs):
+            return 'json/double-parsed-inexactly'
+    if arch == 'json' and e.get('stage') in ('load', 'load2') and e.get('code') == 'Overflow' and any(h in str(e.get('desc0')) for h in ('7f7fffff', 'ff7fffff')):
+        return 'json/float-max-rejected-after-inexact-parse'
     if arch == 'json' and has_nul_key(e.get('desc0')):
         return 'json/map-key-with-nul'
     if arch == 'json' and cfg.get('sink') == 'sstream' and not cfg.get('bom') and enc in ('utf16le', 'utf16be') and raw:
@@ -111,7 +117,9 @@ def run(tier):
             ('json', 'm_str_i32', dict(sink='mem', src='mem', keynul=1, maxsize=2)),
             ('csv', 'csvrows', dict(sink='mem', src='mem', maxsize=0)),
             ('json', 'r_u8', dict(sink='sstream', src='sstream', enc='utf16be', bom=0)),
-            ('json', 'r_u8', dict(sink='sstream', src='sstream', enc='utf16le', bom=0))]):
+            ('json', 'r_u8', dict(sink='sstream', src='sstream', enc='utf16le', bom=0)),
+            ('json', 'v_f64', dict(sink='mem', src='mem', maxsize=40)),
+            ('json', 'v_f32', dict(sink='mem', src='mem', maxsize=60))]):
         for rep in range(6):
             cid = 'd%d_%d' % (j, rep)
             line = D.case_line('roundtrip', arch, typ, cid, seed=1000 + rep, **kw)
